@@ -14,3 +14,4 @@ python3 mkmanifest.py > /dev/null
 git add -A
 git diff --cached --name-only --diff-filter=U
 grep -rl '^<<<<<<< ' extract harness lean/GormModel lean/*.lean --include=*.go --include=*.lean --include=*.json 2>/dev/null
+exit 0
